@@ -1608,6 +1608,70 @@ pub struct Sweep {
     pub reported_lines: u64,
     /// per detector: programs with non-empty Must / with May only / with reports
     pub stats: Vec<(String, u64, u64, u64)>,
+    pub outcome_set: Vec<u64>,
+}
+
+impl Sweep {
+    pub fn empty(detectors: &[Detector]) -> Sweep {
+        Sweep { violations: Vec::new(), machinery: Vec::new(), programs: 0, calls: 0, validated: 0, distinct_outcomes: 0, reported_lines: 0, stats: detectors.iter().map(|d| (d.name.to_string(), 0, 0, 0)).collect(), outcome_set: Vec::new() }
+    }
+    /// fold another sweep into this one, keeping only the smallest witness per violation site
+    pub fn merge(&mut self, other: Sweep, outcomes: &mut BTreeSet<u64>) {
+        self.programs += other.programs;
+        self.calls += other.calls;
+        self.validated += other.validated;
+        self.reported_lines += other.reported_lines;
+        for m in other.machinery {
+            if self.machinery.len() < 20 {
+                self.machinery.push(m);
+            }
+        }
+        for (a, b) in self.stats.iter_mut().zip(other.stats.iter()) {
+            a.1 += b.1;
+            a.2 += b.2;
+            a.3 += b.3;
+        }
+        outcomes.extend(other.outcome_set);
+        self.distinct_outcomes = outcomes.len() as u64;
+        // violations: keep the smallest per site plus a count carried in `extra`
+        let mut best: HashMap<String, (Violation, u64)> = HashMap::new();
+        for v in self.violations.drain(..).chain(other.violations.into_iter()) {
+            let n = v.extra.get("merged_occurrences").and_then(|x| x.as_u64()).unwrap_or(1);
+            match best.get_mut(&v.site) {
+                Some((old, c)) => {
+                    *c += n;
+                    if v.size < old.size {
+                        *old = v;
+                    }
+                }
+                None => {
+                    best.insert(v.site.clone(), (v, n));
+                }
+            }
+        }
+        for (_, (mut v, n)) in best {
+            v.extra["merged_occurrences"] = json!(n);
+            self.violations.push(v);
+        }
+    }
+}
+
+/// sweep the whole corpus of a tier chunk by chunk (bounded memory)
+pub fn sweep_stream(tier: crate::corpus::Tier, detectors: &[Detector], mode: Mode, sample_filter: &dyn Fn(&synth::Prog) -> bool) -> (Sweep, crate::corpus::Summary, Vec<serde_json::Value>) {
+    let mut total = Sweep::empty(detectors);
+    let mut outcomes: BTreeSet<u64> = BTreeSet::new();
+    let mut samples: Vec<serde_json::Value> = Vec::new();
+    let sum = crate::corpus::stream(tier, &mut |chunk: Vec<synth::Prog>| {
+        let c = Corpus { progs: chunk, generated: 0, families: Vec::new() };
+        if samples.len() < 5 {
+            if let Some(p) = c.progs.iter().filter(|p| sample_filter(p)).nth(c.progs.len() / 7 % 50) {
+                samples.push(json!({"tag": p.tag, "source": synth::render_sp(&p.toks)}));
+            }
+        }
+        let sw = sweep(&c, detectors, mode);
+        total.merge(sw, &mut outcomes);
+    });
+    (total, sum, samples)
 }
 
 pub fn sweep(c: &Corpus, detectors: &[Detector], mode: Mode) -> Sweep {
@@ -1622,9 +1686,35 @@ pub fn sweep(c: &Corpus, detectors: &[Detector], mode: Mode) -> Sweep {
     sweep_texts(&items, detectors, mode)
 }
 
+/// keep the smallest witness per site, remembering how many were merged
+fn reduce(vs: &mut Vec<Violation>) {
+    let mut best: HashMap<String, (Violation, u64)> = HashMap::new();
+    for v in vs.drain(..) {
+        let n = v.extra.get("merged_occurrences").and_then(|x| x.as_u64()).unwrap_or(1);
+        match best.get_mut(&v.site) {
+            Some((old, c)) => {
+                *c += n;
+                if v.size < old.size {
+                    *old = v;
+                }
+            }
+            None => {
+                best.insert(v.site.clone(), (v, n));
+            }
+        }
+    }
+    for (_, (mut v, n)) in best {
+        if !v.extra.is_object() {
+            v.extra = json!({});
+        }
+        v.extra["merged_occurrences"] = json!(n);
+        vs.push(v);
+    }
+}
+
 pub fn sweep_texts(items: &[(String, String, Vec<usize>)], detectors: &[Detector], mode: Mode) -> Sweep {
     let res = util::par_map(items.len(), |i| check_text(&items[i].1, &items[i].2, &items[i].0, detectors, mode));
-    let mut s = Sweep { violations: Vec::new(), machinery: Vec::new(), programs: 0, calls: 0, validated: 0, distinct_outcomes: 0, reported_lines: 0, stats: Vec::new() };
+    let mut s = Sweep { violations: Vec::new(), machinery: Vec::new(), programs: 0, calls: 0, validated: 0, distinct_outcomes: 0, reported_lines: 0, stats: Vec::new(), outcome_set: Vec::new() };
     let mut outcomes: BTreeSet<u64> = BTreeSet::new();
     let mut st: Vec<(u64, u64, u64)> = vec![(0, 0, 0); detectors.len()];
     for r in res {
@@ -1653,8 +1743,13 @@ pub fn sweep_texts(items: &[(String, String, Vec<usize>)], detectors: &[Detector
             }
         }
         s.violations.extend(r.violations);
+        if s.violations.len() > 50_000 {
+            reduce(&mut s.violations);
+        }
     }
+    reduce(&mut s.violations);
     s.distinct_outcomes = outcomes.len() as u64;
+    s.outcome_set = outcomes.into_iter().collect();
     s.stats = detectors.iter().zip(st).map(|(d, (a, b, c))| (d.name.to_string(), a, b, c)).collect();
     s
 }
